@@ -140,6 +140,15 @@ class Check:
             self.violations.append((monitor, self.violations[-1][1], None))
         return True
 
+    def known_id(self, monitor, sig):
+        """id of the listed (unrepaired) finding this failure is an instance of, or None; counts nothing"""
+        sig = dict(sig)
+        sig["monitor"] = monitor
+        for f in self.findings:
+            if sig_matches(f, self.pid, sig):
+                return f["id"]
+        return None
+
     def finish(self):
         wall = time.time() - self.t0
         cov = {
